@@ -643,6 +643,14 @@ func (j *judge) judgeReaderBasic(ri int) {
 			if cons > len(stored) {
 				cons = len(stored)
 			}
+			if rs.Srcs[r.Src].Bufio > 0 {
+				// a buffered source reads ahead: the consumed count says
+				// nothing; judge against the frame the reference sees
+				cons = len(stored)
+				if v.valid && !v.f.Legacy && v.f.Consumed > 0 {
+					cons = v.f.Consumed
+				}
+			}
 			cv := verdictOf(stored[:cons])
 			switch {
 			case srcFault:
@@ -701,7 +709,7 @@ func (j *judge) judgeReaderBasic(ri int) {
 				if rr.N != 0 || !rr.Err.IsEOF {
 					j.add("read-after-end", op.Op+":"+rr.Err.Class(), "R%d op %d: Read after the end of the stream returned n=%d err=%s", ri, k, rr.N, errStr(rr.Err))
 				}
-				if rr.Consumed != r.Consumed {
+				if rr.Consumed != r.Consumed && rs.Srcs[r.Src].Bufio == 0 {
 					j.add("read-after-end", "consumes-source", "R%d op %d: Read after the end of the stream consumed %d more source bytes", ri, k, rr.Consumed-r.Consumed)
 				}
 			}
